@@ -100,6 +100,74 @@ def run_fill_values(chk, F):
                '%s:%d' % (rel(f['file']), f['line']), ok, why, key='E7|%s::set_up_containers|fill' % f.get('clsname'))
 
 
+def _conjuncts(c):
+    c = ir.skipcasts(c)
+    while c is not None and c.get('k') == 'ParenExpr' and c.get('c'):
+        c = ir.skipcasts(c['c'][0])
+    if c is not None and c.get('k') == 'BinaryOperator' and c.get('op') == '&&':
+        return _conjuncts(c['c'][0]) + _conjuncts(c['c'][1])
+    return [c] if c is not None else []
+
+
+def run_coboundary_bounds(chk, F):
+    """coboundary = converse of the boundary on the (non-periodic) grid: a cell that is thin in direction d has the
+    coface `cell - multipliers[d]` unless its coordinate in that direction is 0, and the coface
+    `cell + multipliers[d]` unless the coordinate is the last one, 2 * sizes[d]. Every path of
+    get_coboundary_of_a_cell that pushes a coface has established the corresponding coordinate test for the same
+    direction (a test on the flat index alone, `cell + m < data.size()`, only bounds the outermost direction)."""
+    import re
+    fs = [f for f in F.funcs('get_coboundary_of_a_cell', unit='misc_seq')
+          if f['file'].endswith('Bitmap_cubical_complex_base.h') and f.get('body') is not None]
+    if len(fs) != 1:
+        raise AnalysisBroken('C13: Bitmap_cubical_complex_base::get_coboundary_of_a_cell not found')
+    f = fs[0]
+
+    def cl(x):
+        if ir.is_call(x) and ir.call_name(x) in ('push_back', 'emplace_back') and ir.call_args(x):
+            t = ir.show(ir.call_args(x)[0]).replace('this->', '').replace(' ', '')
+            m = re.match(r'^\(?cell([+-])(?:multipliers\[(.+)\]|1)\)?$', t)
+            if m:
+                return ['PUSH:%s:%s' % (m.group(1), m.group(2) if m.group(2) is not None else '0')]
+            return ['PUSH:?:%s' % t]
+        return []
+    ps = paths.enumerate_paths(f, cl, loop_mode='1', keep_conds=True, cap=20000)
+    n = 0
+    bad = None
+    for p in ps:
+        true_conj = []
+        for c, pol, cx in p.conds:
+            if isinstance(c, tuple) or not pol:
+                continue
+            true_conj += [ir.show(y).replace('this->', '').replace(' ', '') for y in _conjuncts(c)]
+        for t in p.tags():
+            if not t.startswith('PUSH:'):
+                continue
+            _, sign, d = t.split(':', 2)
+            n += 1
+            if sign == '?':
+                bad = bad or ('a coface of unknown form is pushed: %s' % d)
+                continue
+            if sign == '+':
+                ok = any(re.search(r'!=\(?2\*sizes\[%s\]' % re.escape(d), cj) or
+                         re.search(r'<\(?2\*sizes\[%s\]' % re.escape(d), cj) for cj in true_conj)
+                why = 'cell + multipliers[%s] is pushed on a path that never compares the coordinate with ' \
+                      '2 * sizes[%s]' % (d, d)
+            else:
+                def coord_nonzero(cj):
+                    m = re.match(r'^\(?(.+?)(?:!=|>)0\)?$', cj)
+                    return bool(m) and m.group(1).strip('()') not in ('cell',)
+                ok = any(coord_nonzero(cj) for cj in true_conj)
+                why = 'cell - multipliers[%s] is pushed on a path that never compares the coordinate with 0' % d
+            if not ok and bad is None:
+                bad = why
+    chk.count('coboundary pushes checked on paths', n)
+    if n < 4:
+        raise AnalysisBroken('C13: only %d coface pushes found in get_coboundary_of_a_cell' % n)
+    chk.ob('E2g-coboundary-bounds', 'Bitmap_cubical_complex_base::get_coboundary_of_a_cell: every coface is pushed '
+           'under the coordinate test of its direction', '%s:%d' % (rel(f['file']), f['line']), bad is None,
+           bad or '', key='E2g|Bitmap_cubical_complex_base::get_coboundary_of_a_cell|bounds')
+
+
 def run(tier, replay=None):
     chk = Check('C13', tier,
                 'Static decision of the filtration-order clause of the cubical complex: the comparator handed to the '
@@ -130,6 +198,8 @@ def run(tier, replay=None):
         if len(sc) == 1:
             args = [ir.show(a) for a in ir.call_args(sc[0])]
             sorts[unit] = (ir.call_name(sc[0]), args, sc[0])
+            cmprules.check_whole_range(chk, 'E7b-sort-arms', sc[0], '%s:%s' % (rel(inits[0]['file']), sc[0].get('l')),
+                                       'E7b|cubical|%s|whole-range' % unit, 'initialize_filtration (%s)' % unit)
     if len(sorts) == 2:
         (n1, a1, s1), (n2, a2, s2) = sorts['misc_tbb'], sorts['misc_seq']
         same = a1 == a2
@@ -142,6 +212,7 @@ def run(tier, replay=None):
                '' if comp_ok else 'comparator arguments: %s / %s' % (a1[-1:], a2[-1:]), key='E7b|cubical|comparator')
     run_boundary_alternation(chk, F)
     run_fill_values(chk, F)
+    run_coboundary_bounds(chk, F)
     chk.assumptions += ['filtration values obey trichotomy (no NaN), as the property states',
                         'clang 14 parser; both preprocessor configurations parsed']
     return chk
